@@ -35,6 +35,7 @@ type Outcome struct {
 	Panic          string // non-empty: the command panicked (exit 2 + trace in the real binary)
 	Deadlock       bool
 	Horizon        bool
+	Pruned         bool
 	Blocked        []string
 	Steps          int
 	Goroutines     int
@@ -178,6 +179,11 @@ func (d *Driver) Run(ctl *Ctx, args ...string) *Outcome {
 type zeroCtl struct{}
 
 func (zeroCtl) Choose(vsched.Kind, int, bool, func() string) int { return 0 }
+func (zeroCtl) Visit(uint64) bool                                { return true }
+
+// RunNative executes the command free-running on the real Go runtime (no scheduler):
+// used by the race-detector tier.
+func (d *Driver) RunNative(args ...string) *Outcome { return d.run(nil, args) }
 
 func (d *Driver) run(sc vsched.Controller, args []string) *Outcome {
 	var stdout, stderr bytes.Buffer
@@ -190,7 +196,7 @@ func (d *Driver) run(sc vsched.Controller, args []string) *Outcome {
 	os.Stdout, os.Stderr = d.outFile, d.errFile
 	color.NoColor = true
 	vexit.InProcess = true
-	res := vsched.Run(sc, vsched.Options{Horizon: d.Horizon, TraceOps: d.TraceOps}, func() {
+	body := func() {
 		defer func() {
 			if r := recover(); r != nil {
 				if vsched.IsKilled(r) {
@@ -209,14 +215,20 @@ func (d *Driver) run(sc vsched.Controller, args []string) *Outcome {
 			fmt.Fprintln(c.ErrOrStderr(), err)
 			out.Exit = 1
 		}
-	})
+	}
+	var res vsched.Result
+	if sc == nil {
+		body()
+	} else {
+		res = vsched.Run(sc, vsched.Options{Horizon: d.Horizon, TraceOps: d.TraceOps}, body)
+	}
 	vexit.InProcess = false
 	os.Stdout, os.Stderr = savedOut, savedErr
 	// the real process interleaves cobra's writer and direct os.Stdout writes; the
 	// commands never use both for payload in one run, so concatenation is faithful
 	out.Stdout = stdout.String() + drain(d.outFile)
 	out.Stderr = stderr.String() + drain(d.errFile)
-	out.Deadlock, out.Horizon, out.Blocked = res.Deadlock, res.Horizon, res.Blocked
+	out.Deadlock, out.Horizon, out.Blocked, out.Pruned = res.Deadlock, res.Horizon, res.Blocked, res.Pruned
 	out.Steps, out.Goroutines, out.MaxLive, out.Leaked, out.Trace = res.Steps, res.Goroutines, res.MaxLive, res.Leaked, res.Trace
 	if res.Crash != "" {
 		out.Panic = res.Crash
